@@ -217,13 +217,14 @@ def exec_adaptive(sc):
                 # remainder of 2e-8 in front of a checkpoint -- it degrades in the same way: 20 x tolerance, 65 steps)
                 v["finding"] = "KF-C01-tiny-step"
                 v["inv"] = "TOL-tiny-step"
-            elif cfg["calib"] == "none" and float(wm.get("lipschitz", 1.0)) ** (q + 1) > 2.0 and \
+            elif cfg["calib"] in ("none", "mle") and float(wm.get("lipschitz", 1.0)) ** (q + 1) > 2.0 and \
                     ratio <= (K_TOL if cfg["order"] == 1 else K_TOL_SECOND_ORDER) * float(wm.get("lipschitz", 1.0)) ** (q + 1):
-                # finding predicate: the uncalibrated solver keeps the output scale at 1, so its error estimate is blind to the
-                # size of the (q+1)-th derivative, which for a problem with Lipschitz constant L grows like L^(q+1)
+                # finding predicate: solver and solver_mle (whose calibration is applied after the run) step with the output scale
+                # at 1, so the error estimate is blind to the size of the (q+1)-th derivative, which for a problem with
+                # Lipschitz constant L grows like L^(q+1); solver_dynamic meets the tolerance on the same problems (0.1 x)
                 v["finding"] = "KF-C01-uncalibrated-scale"
                 v["inv"] = "TOL-uncalibrated-scale"
-                v["msg"] += f"; uncalibrated solver, L^(q+1) = {float(wm.get('lipschitz', 1.0)) ** (q + 1):.0f}"
+                v["msg"] += f"; time stepping with unit output scale ({cfg['calib']}), L^(q+1) = {float(wm.get('lipschitz', 1.0)) ** (q + 1):.0f}"
             else:
                 # finding predicate: a solution component that has shrunk towards zero at the requested time while
                 # atol << rtol |u| along the way: every step was controlled relative to the then-current |u|, so the
